@@ -116,6 +116,36 @@ type wWorld struct {
 	withhold  bool // Byzantine nodes do not serve block fetches
 	panics    []string
 	logbuf    *nullWriter
+	// fast-hotstuff bookkeeping
+	aggOf        map[hotstuff.Hash]*hotstuff.AggregateQC // aggregate QC carried by the proposal of a block
+	timeoutIdx   map[string]wTimeoutInfo                 // bytes signed as MsgSignature -> (view, reported QC block)
+	aggqcs       []hotstuff.AggregateQC                  // aggregate QCs known to the Byzantine coalition
+	timeoutsSeen map[hotstuff.View][]hotstuff.TimeoutMsg
+}
+
+type wTimeoutInfo struct {
+	view hotstuff.View
+	qc   hotstuff.Hash
+}
+
+func (w *wWorld) regProposal(p *hotstuff.ProposeMsg) {
+	w.regBlock(p.Block)
+	if p.AggregateQC != nil {
+		if _, ok := w.aggOf[p.Block.Hash()]; !ok {
+			w.aggOf[p.Block.Hash()] = p.AggregateQC
+		}
+	}
+}
+
+func (w *wWorld) regTimeout(m hotstuff.TimeoutMsg) {
+	if m.MsgSignature == nil {
+		return
+	}
+	var h hotstuff.Hash
+	if qc, ok := m.SyncInfo.QC(); ok {
+		h = qc.BlockHash()
+	}
+	w.timeoutIdx[string(m.ToBytes())] = wTimeoutInfo{view: m.View, qc: h}
 }
 
 type nullWriter struct{}
@@ -199,10 +229,13 @@ func (s *wSender) Vote(id hotstuff.ID, pc hotstuff.PartialCert) error {
 	return nil
 }
 
-func (s *wSender) Timeout(msg hotstuff.TimeoutMsg) { s.broadcast(msg) }
+func (s *wSender) Timeout(msg hotstuff.TimeoutMsg) {
+	s.w.regTimeout(msg)
+	s.broadcast(msg)
+}
 
 func (s *wSender) Propose(p *hotstuff.ProposeMsg) {
-	s.w.regBlock(p.Block)
+	s.w.regProposal(p)
 	s.broadcast(*p)
 }
 
@@ -249,6 +282,8 @@ func newWorld(spec wSpec) (*wWorld, error) {
 		nodes: map[NodeID]*wNode{}, byID: map[hotstuff.ID][]*wNode{}, leaders: spec.leaders,
 		partition: map[NodeID]int{}, blocks: map[hotstuff.Hash]*hotstuff.Block{},
 		dropProb: spec.dropProb, dupProb: spec.dupProb, withhold: spec.withhold,
+		aggOf: map[hotstuff.Hash]*hotstuff.AggregateQC{}, timeoutIdx: map[string]wTimeoutInfo{},
+		timeoutsSeen: map[hotstuff.View][]hotstuff.TimeoutMsg{},
 	}
 	w.regBlock(hotstuff.GetGenesis())
 	isIn := func(l []hotstuff.ID, x hotstuff.ID) bool {
